@@ -68,7 +68,7 @@ THEOREMS += ["PV.C09.lex_shift", "PV.C09.lex_shift_of_fit", "PV.C09.lexRaw_shift
 # parser PV.C02.parseR commutes with a shift of the span table (lean/PV/C09/RShift.lean, induction over its 48 functions)
 THEOREMS += ["PV.C09.lex_parse_shift_model", "PV.C09.parseRTest_shift", "PV.C09.parseRTop_shift", "PV.C09.parseR_shift",
              "PV.C09.parseRExpression_shift", "PV.C09.lex_parseR_shift_model", "PV.C09.erase_shE", "PV.C09.range_shE",
-             "PV.C09.shiftAt", "PV.C09.lexSpansGo_length"]
+             "PV.C09.shiftAt", "PV.C09.lexSpansGo_length", "PV.C09.toTree_shE"]
 
 TRUSTED = [
     "Lean 4.33.0 kernel; axioms limited to propext, Classical.choice, Quot.sound",
